@@ -392,7 +392,7 @@ def ops_failing(rng, d):
         x = al.datum(rng)
         if fids and rng.random() < 0.45:
             x["fa"] = rng.choice(fids)
-            x["fm"] = rng.choice(["raise", "wrong"])
+            x["fm"] = rng.choice(["raise", "wrong", "npstr"])
         # also weights that are not exactly representable: a rollback by subtraction would not restore them
         ops.append({"op": "Fill", "s": 1, "x": x, "w": rng.choice(DR.POSWEIGHTS + [Q(0), Q(F(1, 10)), Q(F(3, 10)), Q(F(1, 3))])})
         if x["fa"] and rng.random() < 0.6:
